@@ -100,8 +100,9 @@ def z_factor_DAK(
             0.721,
         ]
     )
-    temp_reduced = (temperature + 459.67) / (temperature_pseudocritical + 459.67)
-    pressure_reduced = pressure / pressure_pseudocritical
+    # plain floats: a float32 input would otherwise make the residual single precision
+    temp_reduced = float((temperature + 459.67) / (temperature_pseudocritical + 459.67))
+    pressure_reduced = float(pressure / pressure_pseudocritical)
     C = np.zeros(5)  # Taylor series expansion
     C[0] = (
         A[0] * A[1] / temp_reduced
